@@ -7,10 +7,10 @@ TRUSTED = ["Coq 8.16.1 kernel", "extraction (ExtrOcamlBasic, Z inductive) + orac
            "tools/translate.py (Python ast -> Gallina, fail-closed) for RaggedView2._calculate_lengths / _pos_col_slice / col_slice (negative step, integer column) / ends",
            "numpy indexing primitives as modelled in Lib/NumpySem.v (validated by every case)", "this harness"]
 ASSUME = ["element values are the flat positions 0..n-1 (parametricity: getitem only moves elements)"]
-RULE = ("index expressions on lazily derived arrays (the two-step chains of C06) and on fresh arrays: 9 shapes with empty rows in every position x every row selector (Ellipsis, ints -n-1..n, slices over 6x6x5 bounds/steps, "
+RULE = ("12 shapes (three with equal-length neighbouring rows), row lists with repeats and permutations; index expressions on lazily derived arrays (the two-step chains of C06) and on fresh arrays: 9 shapes with empty rows in every position x every row selector (Ellipsis, ints -n-1..n, slices over 6x6x5 bounds/steps, "
         "int lists, masks) x every column selector (none, Ellipsis, ints, slices over 8x8x7, int lists) + a[()] ; quick: seeded 1/8 sample "
         "of the slice x slice block, everything else complete; (row list, column list) pairs of unequal length where one has length 1 are not generated (numpy broadcasting of index lists is outside the modelled grammar); non-trivial = array has >= 2 rows and the index is not a bare Ellipsis")
-SHAPES = [[3,0,2,1],[0,2],[2,0],[0,0],[1,3],[0],[2],[],[0,1,0,0,2]]
+SHAPES = [[3,0,2,1],[0,2],[2,0],[0,0],[1,3],[0],[2],[],[0,1,0,0,2],[2,2,3],[1,1,1,1],[2,2,2]]
 
 
 def translator_tie():
@@ -40,6 +40,9 @@ def gen(ls, tier, rng):
     B = [None, -nr - 1, -1, 0, 1, nr + 1]
     rowsels = [Ellipsis] + list(range(-nr - 1, nr + 1)) + [slice(a, b, s) for a in B for b in B for s in [None, 1, 2, -1, -2]]
     rowsels += [[i] for i in range(-nr, nr)] + [[i, j] for i in range(-nr, nr) for j in range(-nr, nr)][:30] + [[nr], [-nr - 1]]
+    if nr >= 2:      # longer lists: repeats, permutations, ascending runs
+        rowsels += [[0, 0, nr - 1], list(range(nr))[::-1], [0] + list(range(nr)), list(range(nr)) + [0], [i for i in range(nr) for _ in (0, 1)], [0, nr - 1, 1 % nr, nr - 1]]
+        if nr >= 4: rowsels += [[0, 2, 1, 3], [1, 0, 3, 2]]
     rowsels += [list(m) for m in itertools.product([True, False], repeat=nr)][:16] if nr else []
     C = [None, -mx - 1, -2, -1, 0, 1, 2, mx + 1]
     colsels = [None, Ellipsis] + list(range(-mx - 1, mx + 1)) + [slice(a, b, s) for a in C for b in C for s in [None, 1, 2, 3, -1, -2, -3]]
@@ -91,9 +94,38 @@ def kind_of(idx):
     return "a[()]" if idx == () else (type(idx[0]).__name__ + "," + type(idx[1]).__name__ if isinstance(idx, tuple) else type(idx).__name__)
 
 
+def same_object_stage(Rn, tier, rng):
+    """the same index expression evaluated twice on ONE derived array, with a materialising read in between (cached views must not go stale)"""
+    import numpy as np
+    from npstructures import RaggedArray
+    from harness import c06
+    def canon(x):
+        if isinstance(x, RaggedArray): return [2, x.tolist()]
+        if isinstance(x, np.ndarray): return [1, x.tolist()] if x.ndim else [0, x.item()]
+        return [0, int(x)]
+    for B in c06.PBASES:
+        for l1 in c06.p_lazies(len(B)):
+            rows = guarded(lambda: RaggedArray(B, dtype=int)[c06._to_py(l1)].tolist())
+            if not isinstance(rows, list) or (rows and not isinstance(rows[0], list)): continue
+            nr = len(rows); mx = max([len(r) for r in rows] + [0])
+            idxs = [(Ellipsis, slice(None, 2)), (slice(None), slice(1, None)), (slice(None), slice(None, None, -1)), (Ellipsis, slice(None, None, 2)), (slice(None), 0), (Ellipsis, -1),
+                    slice(1, None), slice(None, None, -1), (slice(None, None, -1), slice(None, 2)), ([0, nr - 1] if nr else slice(None), slice(0, 2)), 0, -1, (0, 0), (nr - 1, -1), Ellipsis]
+            for idx in idxs:
+                for mid in ("tolist", "row0", "ravel", "sum"):
+                    def seq(mk):
+                        d = mk(); r1 = guarded(lambda: canon(d[c06._to_py(idx)]))
+                        guarded(lambda: d.tolist() if mid == "tolist" else d[0] if mid == "row0" else d.ravel() if mid == "ravel" else d.sum(axis=-1))
+                        r2 = guarded(lambda: canon(d[c06._to_py(idx)]))
+                        return [r1, r2]
+                    impl = seq(lambda: RaggedArray(B, dtype=int)[c06._to_py(l1)]); ref = seq(lambda: RaggedArray(rows, dtype=int))
+                    Rn.record(f"twice {show(B)} {show(enc_index(l1))} {idx!r} via {mid}", impl, ref, ref, nr >= 2, "same-object-twice",
+                              py=f"d = RaggedArray({B})[{l1!r}]; d[{idx!r}]; d.{mid}; d[{idx!r}]   vs the same on RaggedArray({rows})")
+
+
 def run(Rn, tier, rng):
     from harness import c06
     c06._run_chains(Rn, tier, rng)          # the same index grammar on lazily derived arrays ("for every ragged array")
+    same_object_stage(Rn, tier, rng)
     items, lines, impl = collect(tier, rng)
     out = oracle(lines)
     for (R, idx), line, i, o in zip(items, lines, impl, out):
